@@ -3,6 +3,7 @@ package checks
 import (
 	"encoding/json"
 	"fmt"
+	"os"
 	"path/filepath"
 	"strings"
 	"time"
@@ -38,6 +39,9 @@ func gwHeader(p *gen.Project) map[string]interface{} {
 		prev = h.LowerDm
 	}
 	h := map[string]interface{}{"gws": gws, "route": route, "corg100": corg, "knownH14": knownH14Listed}
+	if p.Cfg.GWFrom == "polygonfile" {
+		h["gwHigh"], h["gwLow"], h["gwPhase"] = p.GWHigh, p.GWLow, p.Cfg.GWPhase
+	}
 	if route == "explicit" {
 		// the given values per 10 cm layer at 1e-9 (the explicit route applies no stone correction)
 		fc, wp, pv := []int{}, []int{}, []int{}
@@ -178,9 +182,35 @@ func checkC20(c *core.Ctx) {
 			c.Evals += n
 		}
 	}
+	if c.Replay != "" {
+		if _, err := os.Stat(filepath.Join(c.Replay, "pair.json")); err == nil {
+			gwPhasePairs(c, worker, 0)
+			return
+		}
+	}
 	ps := runOrReplay(c, func() []*gen.Project { return gwProjects(c, c.Pick(10, 80), c.Pick(2, 4), 2000) })
 	if len(ps) > 0 {
-		checkRunTraces(c, worker, ps, "Trace_Run_C20.cfg", "", gwHeader, nil)
+		res := checkRunTraces(c, worker, ps, "Trace_Run_C20.cfg", "", gwHeader, nil)
+		// model equality (informational): the curve of the polygon-file route is the sine over a 360-day year
+		if c.Replay == "" {
+			drift := 0
+			var sel []*runCase
+			for _, tr := range res {
+				if tr != nil && tr.OK && tr.Case.P.Cfg.GWFrom == "polygonfile" && len(sel) < c.Pick(2, 12) {
+					sel = append(sel, tr.Case)
+				}
+			}
+			for _, tr := range validateCases(c, sel, "Trace_Run", "Trace_Run_C20_drift.cfg", "") {
+				if tr != nil && tr.Violated != "" {
+					drift++
+					fmt.Printf("MODEL-DRIFT module=Groundwater statement=%s run=%s line=%d (the level is no longer mean - amplitude * sin(day of year + phase) over a 360-day year)\n", tr.Violated, tr.Case.P.Name, tr.Line)
+				}
+			}
+			c.Cover("model_drift_sine_formula", map[string]int{"runs": len(sel), "drift": drift})
+		}
+	}
+	if c.Replay == "" {
+		gwPhasePairs(c, worker, c.Pick(4, 24))
 	}
 	c.Distinct = c.TracesOK
 	c.Cover("rule", "one case per kernel query or generated project run")
@@ -413,4 +443,98 @@ func designSoilParams(c *core.Ctx) {
 	if u.Violated != "FunctionOfLevel" {
 		c.Machineryf("control failed: a backup taken after the first saturation should violate FunctionOfLevel (exit=%d)", u.Exit)
 	}
+}
+
+// gwPhasePairs: the phase-shift statement of C20 on pairs of real runs that differ only in the configured phase
+// (Trace_GwPhase.tla). Phase 0 is always among the pairs (a configured 0 is a phase like any other).
+func gwPhasePairs(c *core.Ctx, worker string, n int) {
+	type pair struct {
+		Salt   int64 `json:"salt"`
+		P1, P2 int
+		Seed   int64 `json:"seed"`
+	}
+	var pairs []pair
+	if c.Replay != "" {
+		b, err := os.ReadFile(filepath.Join(c.Replay, "pair.json"))
+		if err != nil {
+			return
+		}
+		var pr pair
+		json.Unmarshal(b, &pr)
+		c.Seed = pr.Seed
+		pairs = []pair{pr}
+	} else {
+		for i := 0; i < n; i++ {
+			r := rngFor(c, 2600+int64(i))
+			p1 := []int{0, 0, 80, 17, 0, 200}[i%6]
+			p2 := []int{80, 31, 0, 117, 5 + r.Intn(170), 80}[i%6]
+			pairs = append(pairs, pair{Salt: 2700 + int64(i), P1: p1, P2: p2, Seed: c.Seed})
+		}
+	}
+	mk := func(pr pair, phase int, tag string) *gen.Project {
+		r := rngFor(c, pr.Salt)
+		o := gen.Opts{Years: 2, MinLayers: 3, MaxLayers: 12, GWFrom: []string{"polygonfile"}, ShallowGW: true, NoCrops: true, DateFormats: []int{1, 3, 0}}
+		p := gen.Random(r, fmt.Sprintf("gp%d_%d%s", c.Seed, pr.Salt, tag), o)
+		p.GWHigh = 2 + r.Intn(12)
+		p.GWLow = p.GWHigh + 2 + r.Intn(20)
+		p.Cfg.GWPhase = phase
+		p.Arms = []string{fmt.Sprintf("gw=polygonfile high=%d low=%d phase=%d (phase pair %d/%d)", p.GWHigh, p.GWLow, phase, pr.P1, pr.P2)}
+		return p
+	}
+	var ps []*gen.Project
+	for _, pr := range pairs {
+		ps = append(ps, mk(pr, pr.P1, "a"), mk(pr, pr.P2, "b"))
+	}
+	skip := "day.top,day.weather,day.inputs,day.evatra,day.steps,sub.pre,sub.water,sub.crop,nitro.mineral,nitro.move,sub.nitro,day.denit,day.end"
+	cases := execAll(c, worker, ps, skip, nil, 10*time.Minute)
+	okPairs := 0
+	parallel(len(pairs), 8, func(i int) {
+		a, b := cases[2*i], cases[2*i+1]
+		pr := pairs[i]
+		gwOf := func(rc *runCase) []map[string]interface{} {
+			evs, _ := core.ReadNDJSON(rc.Trace)
+			var out []map[string]interface{}
+			for _, e := range evs {
+				if e["ev"] == "day.gw" {
+					out = append(out, map[string]interface{}{"ev": "gw", "zeit": e["zeit"], "year": e["year"], "grw": e["grw"]})
+				}
+			}
+			return out
+		}
+		ea, eb := gwOf(a), gwOf(b)
+		if len(ea) < 300 || len(eb) < 300 {
+			c.Machineryf("phase pair %s/%s: runs too short (%d, %d groundwater events; exit %d, %d)", a.P.Name, b.P.Name, len(ea), len(eb), a.Exit, b.Exit)
+			return
+		}
+		dir := c.Sub(fmt.Sprintf("gwpair-%d", i))
+		tf := filepath.Join(dir, "pair.ndjson")
+		var sb strings.Builder
+		hb, _ := json.Marshal(map[string]interface{}{"ev": "gwpair", "p1": pr.P1, "p2": pr.P2, "na": len(ea), "za0": ea[0]["zeit"], "a": a.P.Name, "b": b.P.Name})
+		sb.Write(hb)
+		sb.WriteByte('\n')
+		for _, e := range append(ea, eb...) {
+			x, _ := json.Marshal(e)
+			sb.Write(x)
+			sb.WriteByte('\n')
+		}
+		os.WriteFile(tf, []byte(sb.String()), 0644)
+		run := c.TLC(core.TLCOpts{Module: "Trace_GwPhase", Cfg: "Trace_GwPhase.cfg", Kind: "trace-pair", Workers: 1, Timeout: 10 * time.Minute,
+			Files: map[string]string{"trace.ndjson": tf}, Heap: "2g"})
+		switch {
+		case run.IsViolation() && run.Violated == "P20_PhaseShift":
+			l, _ := run.AliasInt("l")
+			pj, _ := json.Marshal(pr)
+			rd := saveReplay(c, map[string]string{"pair.json": string(pj) + "\n", "tlc.out": run.Tail(40), "event.ndjson": core.LineOf(tf, 1) + "\n" + core.LineOf(tf, l-1) + "\n",
+				"projectA.json": jsonStr(a.P), "projectB.json": jsonStr(b.P)})
+			c.Violate(fmt.Sprintf("P20_PhaseShift violated for the pair %s (phase %d) / %s (phase %d), levels %d..%d dm: the curve of the second run is not the curve of the first moved by %d days (%s)",
+				a.P.Name, pr.P1, b.P.Name, pr.P2, a.P.GWHigh, a.P.GWLow, pr.P2-pr.P1, strings.TrimSpace(core.LineOf(tf, l-1))), rd)
+		case run.IsViolation() || !run.OK():
+			c.Machineryf("phase pair %s/%s: trace validation failed: %s exit=%d\n%s", a.P.Name, b.P.Name, run.Violated, run.Exit, run.Tail(15))
+		default:
+			okPairs++
+		}
+	})
+	c.Evals += len(pairs)
+	c.TracesOK += okPairs
+	c.Cover("phase_pairs", map[string]int{"pairs": len(pairs), "shift_confirmed": okPairs})
 }
